@@ -91,8 +91,17 @@ Dump(r) ==
   /\ hist' = Append(hist, <<"D", r>>)
   /\ UNCHANGED <<runners, modstate>>
 
+\* the caller applies a PDF to the output runner r returned last (Output.apply_pdf_alphas_alphaqed_xir_xif): a pure
+\* observation - the prediction is a function of the output, the output object and the runner are what they were
+Apply(r) ==
+  /\ WithDump /\ r \in 1..Len(runners) /\ Len(hist) < MaxEvents
+  /\ runners[r].out # <<>> /\ hist[Len(hist)][1] # "A"
+  /\ hist' = Append(hist, <<"A", r>>)
+  /\ UNCHANGED <<runners, modstate>>
+Prediction(cfg) == <<"pred", IdealOut(cfg)>>
+
 Next == \/ \E cfg \in Universe : Construct(cfg, TRUE)
-        \/ \E r \in 1..MaxRunners : GetResult(r) \/ Dump(r)
+        \/ \E r \in 1..MaxRunners : GetResult(r) \/ Dump(r) \/ Apply(r)
 Spec == Init /\ [][Next]_vars
 
 \* ------------------------------------------------------------------ properties
